@@ -19,6 +19,9 @@ CLAIMED = {
  "C01": ("exploration", "deterministic simulation: seeded emitter interleavings (yield stalls), latency/jitter/chunking network, typed-handler delivery oracle keyed by unique emission ids",
          "Real sio server and 1-3 real sio clients over the simulated network on polling / websocket / polling->websocket upgrade, recovery on/off, three buffer limits; up to 8 emitter tasks per run emit events of 12 argument-shape classes and 17 event names with size targets at the 125/126, 32 KiB, 64 KiB and limit boundaries; each emission must reach exactly one handler, the one registered for its name, with equal arguments; any disconnect on the fault-free network is a violation.",
          "§7 C01", TB),
+ "C06": ("fault_enumeration", "deterministic simulation: termination cause x phase matrix with simultaneous causes + fixed sweep of connection cuts over byte offsets; lifecycle-handler counting oracle, server-state residue checks, sid probe",
+         "Real sio server, a victim client and a bystander. Causes {client Disconnect, manager Close, server Disconnect(false/true), DisconnectSockets(false/true), Server.Close, cut, fin, black-hole}, one or two at the same fake instant, in phases {idle, mid-burst both ways, during the upgrade, while a namespace middleware sleeps, Engine.IO session without CONNECT}; fixed sweep: victim's polling/WebSocket connections cut at byte k. Every server socket whose connection handler ran: disconnecting once with rooms still joined, then disconnect once, reason in the cause's set; client: one disconnect per connection; afterwards the socket is in no Sockets() list and no room, the old Engine.IO sid answers {code:1}; the bystander is untouched; no closing call hangs.",
+         "§7 C06", TB),
  "C07": ("fault_enumeration", "deterministic simulation: faults on the candidate connection enumerated over byte offsets of both directions + seeded refuse/stall/black-hole + reactive 'pong at the time-out instant' coincidence; exactly-once delivery oracle on numbered messages",
          "Real eio server and client upgrading polling->websocket while numbered text/binary messages flow both ways around the swap. Fixed sweep: the candidate connection is cut at byte k of c2s and s2c (every 12th byte quick, every byte thorough: each protocol step of the upgrade). Seeded: refused, stalled past either side's upgrade time-out, black-holed; the probe pong held until the client's time-out instant +-2 ns. Sessions that stayed up: every message exactly once; never a duplicate or phantom; close reported at most once; if nobody switched, the session keeps working on polling (probe messages both ways); fault-free upgrades complete with both ends on websocket; no API call hangs.",
          "§7 C07", TB),
